@@ -11,7 +11,7 @@ from .catalogue import ALL_BY_NAME, HDR
 
 PROPERTY = 'C03'
 
-BASE = [[2, 20, 'z,w'], [1, 10, 'x,y'], [2, 21, 'u,v']]
+BASE = [[2, 20, 'z,w'], [9, 10, 'x,y'], [2, 21, 'u,v']]      # key 9 has no partner in the second input
 
 
 def _fresh_other():
@@ -98,6 +98,57 @@ def immut(sym, name, R, ragged):
         catalogue.OTHER, catalogue.SAME = saved
 
 
+def _deep(x):
+    if isinstance(x, dict):
+        return dict((k, _deep(v)) for k, v in x.items())
+    if isinstance(x, list):
+        return [_deep(v) for v in x]
+    if isinstance(x, tuple):
+        return tuple(_deep(v) for v in x)
+    return x
+
+
+MUTABLE_OPS = {
+    'unpackdict-keys': lambda t: petl.unpackdict(t, 'd', keys=['p', 'q', 'zz']),
+    'unpackdict-sample': lambda t: petl.unpackdict(t, 'd'),
+    'unpackdict-include': lambda t: petl.unpackdict(t, 'd', keys=['q'], includeoriginal=True, missing='M'),
+    'unpack': lambda t: petl.unpack(t, 'l', ['x', 'y', 'z'], missing='M'),
+    'unpack-include': lambda t: petl.unpack(t, 'l', 2, include_original=True),
+    'dicts': lambda t: petl.dicts(t),
+    'convert-dict-cell': lambda t: petl.convert(t, 'd', lambda d: sorted(d)),
+    'addfield-from-list': lambda t: petl.addfield(t, 'n', lambda r: len(r['l'])),
+    'flatten': lambda t: petl.flatten(t),
+    'cat': lambda t: petl.cat(t, t),
+    'sort': lambda t: petl.sort(t, 'a'),
+    'selectcontains': lambda t: petl.selectcontains(t, 'l', 1),
+    'fieldmap': lambda t: petl.fieldmap(t, {'x': ('d', lambda d: d.get('p'))}),
+    'melt': lambda t: petl.melt(t, 'a'),
+}
+
+
+def immut_cells(sym, name):
+    """Source cells that are dicts / lists are left as they were."""
+    make = MUTABLE_OPS[name]
+    src = [['a', 'd', 'l'], [1, {'p': 1}, [1, 2]], [2, {'q': 2}, []], [3, {}, [3, 4, 5, 6]]]
+    before = _deep(src)
+    cellobjs = [[c for c in r] for r in src]
+    k = sym.pick('k', [0, 1, 2, 9])
+    with pickle_stub(), private_tempdir() as td, default_tempdir(td):
+        v = make(src)
+        for p in range(2):
+            try:
+                it = iter(v)
+                for _ in range(k if p == 0 else 99):
+                    next(it)
+            except StopIteration:
+                pass
+            it = None
+    check(_deep(src) == before, name + ': a mutable cell (or row) of the source was modified', src, before)
+    for r, objs in zip(src, cellobjs):
+        for c, o in zip(r, objs):
+            check(c is o, name + ': a source cell object was replaced', r)
+
+
 # --------------------------------------------------------------------------
 BOUNDS = {
     'quick': 'every catalogue entry (unary and multi-input) over a list-of-lists source of 2 data rows with '
@@ -121,4 +172,6 @@ def jobs(tier):
         for ragged in (False, True):
             out.append(dict(name='immut/%s/R=%d/ragged=%d' % (name, R, ragged), func='immut',
                             params=dict(name=name, R=R, ragged=ragged), budget=150 if q else 1200))
+    for name in MUTABLE_OPS:
+        out.append(dict(name='immut-cells/%s' % name, func='immut_cells', params=dict(name=name), budget=150 if q else 600))
     return out
